@@ -270,11 +270,11 @@ class Layout(ShapeCastable, metaclass=ABCMeta):
         for key, field in self:
             shape = Shape.cast(field.shape)
             field_value = value[field.offset:field.offset+shape.width]
+            if shape.signed:
+                field_value = field_value.as_signed()
             if isinstance(field.shape, ShapeCastable):
                 fields[str(key)] = field.shape.format(field.shape(field_value), "")
             else:
-                if shape.signed:
-                    field_value = field_value.as_signed()
                 fields[str(key)] = Format("{}", field_value)
         return Format.Struct(value, fields)
 
@@ -567,11 +567,11 @@ class ArrayLayout(Layout):
         shape = Shape.cast(self._elem_shape)
         for index in range(self._length):
             field_value = value[shape.width * index:shape.width * (index + 1)]
+            if shape.signed:
+                field_value = field_value.as_signed()
             if isinstance(self._elem_shape, ShapeCastable):
                 fields.append(self._elem_shape.format(self._elem_shape(field_value), ""))
             else:
-                if shape.signed:
-                    field_value = field_value.as_signed()
                 fields.append(Format("{}", field_value))
         return Format.Array(value, fields)
 
@@ -853,6 +853,8 @@ class View(ValueCastable):
         # Field guarantees that the shape-castable object is well-formed, so there is no need
         # to handle erroneous cases here.
         if isinstance(shape, ShapeCastable):
+            if Shape.cast(shape).signed:
+                value = value.as_signed()
             value = shape(value)
             if not isinstance(value, (Value, ValueCastable)):
                 raise TypeError(
@@ -1103,7 +1105,7 @@ class Const(ValueCastable):
         # Field guarantees that the shape-castable object is well-formed, so there is no need
         # to handle erroneous cases here.
         if isinstance(shape, ShapeCastable):
-            return shape.from_bits(value)
+            return shape.from_bits(hdl.Const(value, Shape.cast(shape)).value)
         return hdl.Const(value, Shape.cast(shape)).value
 
     def __getattr__(self, name):
